@@ -235,9 +235,9 @@ func randomHistory(r *core.Rand, n int) []string {
 }
 
 func (P) Gen(r *core.Rand, tier string, emit func([]string)) {
-	maxLen, maxFault, canonFault, nShort, nLong, nConc, nStorm := 5, 4, 5, 300, 12, 24, 16
+	maxLen, maxFault, canonFault, nShort, nLong, nConc, nStorm, nHammer := 5, 4, 5, 300, 12, 24, 16, 150
 	if tier == "thorough" {
-		maxLen, maxFault, canonFault, nShort, nLong, nConc, nStorm = 7, 5, 6, 6000, 300, 400, 300
+		maxLen, maxFault, canonFault, nShort, nLong, nConc, nStorm, nHammer = 7, 5, 6, 6000, 300, 400, 300, 3000
 	}
 	emit([]string{"alias"})
 	nBase, nFault, nCanon := 0, 0, 0
@@ -267,6 +267,12 @@ func (P) Gen(r *core.Rand, tier string, emit func([]string)) {
 		n := r.Range(4, 14)
 		mode := r.Pick("own", "shared", "reset")
 		emit([]string{"conc " + strconv.FormatUint(r.U64()>>1, 10) + " " + strconv.Itoa(g) + " " + strconv.Itoa(n) + " " + mode})
+	}
+	// hammering: short bodiless calls back to back (what overlaps is the critical sections)
+	for i := 0; i < nHammer; i++ {
+		g := r.Pick("4", "8", "8", "12")
+		n := r.Range(15, 60)
+		emit([]string{"conc " + strconv.FormatUint(r.U64()>>1, 10) + " " + g + " " + strconv.Itoa(n) + " hammer"})
 	}
 	// duplicate storms: every goroutine hammers the same id at the same time (see stormSteps)
 	for i := 0; i < nStorm; i++ {
